@@ -343,7 +343,43 @@ func (c *Cluster) checkC10(n *SimNode) {
 			if de == nil {
 				continue
 			}
+			if !contains(set, de.Creator) && debugTrace {
+				fmt.Fprintf(os.Stderr, "  C10 debug: node %d round %d witness %s by n%d#%d; model rounds %v causes %v; node lcr %v last round %d\n", n.idx, r, short(w), c.byPub[de.Creator].idx, de.Index, model.rounds, model.cause, h.LastConsensusRound, h.Store.LastRound())
+				if sets, err := h.Store.GetAllPeerSets(); err == nil {
+					for rr, ps := range sets {
+						fmt.Fprintf(os.Stderr, "     node peer-set from round %d: %d members\n", rr, len(ps))
+					}
+				}
+				for i := 0; i <= h.Store.LastBlockIndex(); i++ {
+					if b, err := h.Store.GetBlock(i); err == nil && len(b.InternalTransactions()) > 0 {
+						fmt.Fprintf(os.Stderr, "     block %d round-received %d carries %d membership transactions\n", i, b.RoundReceived(), len(b.InternalTransactions()))
+					}
+				}
+			}
 			if !contains(set, de.Creator) {
+				// Was the event already there when this node committed the block that
+				// changed the set? Then the node registered the witness with the set it
+				// knew at the time: the change came into force at a round that already
+				// had events (the fame of the block's round took more than five rounds
+				// to be decided) - one class, see known_findings.json.
+				inForce := 0
+				for _, mr := range model.rounds {
+					if mr <= r {
+						inForce = mr
+					}
+				}
+				if cb, ok := model.cause[inForce]; ok && cb >= 0 {
+					late := true
+					for _, d := range n.app.log {
+						if !d.Shadow && d.Epoch == n.epoch && d.Block.Index() == cb && d.Step < de.FirstStep {
+							late = false
+						}
+					}
+					if late {
+						c.violate("C10", "witness-membership", "set-change-in-force-at-a-round-that-already-has-events", "node %d: round %d has a witness %s created by %s who is not in the round's validator set: block %d (round-received %d), whose receipt removes it from round %d on, was committed by this node only after that event existed", n.idx, r, short(w), short(de.Creator), cb, inForce-6, inForce)
+						return
+					}
+				}
 				c.violate("C10", "witness-membership", "non-member-witness", "node %d: round %d has a witness %s created by %s who is not in the round's validator set", n.idx, r, short(w), short(de.Creator))
 				return
 			}
@@ -1087,6 +1123,10 @@ func (c *Cluster) checkQuorums(n *SimNode) {
 				want = pr + 1
 			}
 		}
+		if ev.SimRound() != want && c.lateSetChange(n, maxInt(pr, 0)+1, de.FirstStep) {
+			c.violate("C10", "quorum", "set-change-in-force-at-a-round-that-already-has-events", "node %d gives event %s round %d, the validator-set model %d: a set change in force at that round was committed by this node only after the event existed", n.idx, short(de.Hash), ev.SimRound(), want)
+			return
+		}
 		if ev.SimRound() != want {
 			c.violate("C10", "quorum", "round-not-by-two-thirds-of-round-set", "node %d gives event %s round %d; by true reachability and the validator set of its parent round %d (%d members, more than two thirds = %d) it is %d", n.idx, short(de.Hash), ev.SimRound(), pr, len(c.vs.at(maxInt(pr, 0))), superMajority(len(c.vs.at(maxInt(pr, 0)))), want)
 			return
@@ -1111,6 +1151,10 @@ func (c *Cluster) checkQuorums(n *SimNode) {
 			de := c.dag.events[w]
 			if de == nil {
 				continue
+			}
+			if !contains(V, de.Creator) && c.lateSetChange(n, r, de.FirstStep) {
+				c.violate("C10", "quorum", "set-change-in-force-at-a-round-that-already-has-events", "node %d: decided round %d counts witness %s of %s who is not in the round's validator set; the set change was committed by this node only after that event existed", n.idx, r, short(w), short(de.Creator))
+				return
 			}
 			if !contains(V, de.Creator) {
 				c.violate("C10", "quorum", "non-member-witness", "node %d: decided round %d counts witness %s of %s who is not in the round's validator set", n.idx, r, short(w), short(de.Creator))
@@ -1313,6 +1357,10 @@ func (c *Cluster) checkFameQuorums(n *SimNode) {
 					}
 				}
 			}
+			if ((fame != 0) != decided || (decided && (fame == 1) != v)) && c.lateSetChange(n, lr, c.dag.events[x].FirstStep) {
+				c.violate("C10", "quorum", "set-change-in-force-at-a-round-that-already-has-events", "node %d: the fame of witness %s (round %d) differs from what the per-round validator sets give; a set change in force in the rounds concerned was committed by this node only after that witness existed", n.idx, short(x), r)
+				return
+			}
 			switch {
 			case fame != 0 && !decided:
 				c.violate("C10", "quorum", "fame-decided-below-two-thirds", "node %d has decided the fame of witness %s (round %d) as %v, but among the witnesses it knows up to round %d none collects more than two thirds of its round's validator set in votes", n.idx, short(x), r, fame == 1, lr)
@@ -1333,4 +1381,34 @@ func (c *Cluster) checkFameQuorums(n *SimNode) {
 			}
 		}
 	}
+}
+
+// lateSetChange: is a validator-set change in force at round r that node n
+// committed only after an event first seen at step firstStep existed? (The
+// change then applied to a round that already had events at this node: the open
+// finding "set-change-in-force-at-a-round-that-already-has-events".)
+func (c *Cluster) lateSetChange(n *SimNode, r int, firstStep int) bool {
+	model := c.nodeModel(n)
+	if model == nil {
+		return false
+	}
+	for _, mr := range model.rounds {
+		if mr > r || mr == 0 {
+			continue
+		}
+		cb, ok := model.cause[mr]
+		if !ok || cb < 0 {
+			continue
+		}
+		late := true
+		for _, d := range n.app.log {
+			if !d.Shadow && d.Epoch == n.epoch && d.Block.Index() == cb && d.Step < firstStep {
+				late = false
+			}
+		}
+		if late {
+			return true
+		}
+	}
+	return false
 }
